@@ -36,16 +36,19 @@ def all_or_none(ctx, key, res, preds, rule, where, true_of=lambda p: None):
                 cases.append((conds + [leaf.neg()], False, '%db%d' % (k, j)))
         else:
             cases.append((conds, bool(good), str(k)))
+    from .ordeval import bkey
+    pk = [bkey(q) for q in preds]; nk = [bkey(q.neg()) for q in preds]
+    pset = set(pk); nset = set(nk); both = pset | nset
     for conds, good, k in cases:
+        ck = [bkey(c) for c in conds]; cset = set(ck)
         if good:
             ok_paths += 1
-            missing = [str(q) for q in preds if not any(q == c for c in conds)]
+            missing = [str(q) for q, qk in zip(preds, pk) if qk not in cset]
             ctx.ob('%s/success-needs-all' % key, not missing, rule, where, 'every element predicate on the success path', 'missing: %s' % missing[:3])
         else:
-            negs = [q.neg() for q in preds]
-            hit = any(any(nq == c for c in conds) for nq in negs)
+            hit = bool(cset & nset)
             ctx.ob('%s/failure-needs-one/%s' % (key, k), hit, rule, where, 'some element predicate false on this failing path', [str(c) for c in conds][:4])
-        foreign = [str(c) for c in conds if not any(c == q or c == q.neg() for q in preds)]
+        foreign = [str(c) for c, k2 in zip(conds, ck) if k2 not in both]
         ctx.ob('%s/only-element-predicates/%s' % (key, k), not foreign, rule, where, 'conditions are element predicates only', foreign[:3])
     ctx.ob('%s/one-success-path' % key, ok_paths == 1, rule, where, 1, ok_paths)
 
